@@ -108,14 +108,15 @@ def evOwn (s : Spec R) : Ev R → Bool
     if that entry was put by a creation function – the LAST completed creation on that key – the value is the output of
     the *uncached* section recorded there (header `c.h`, body `c.body`), in the scope `c.env` and render context `c.ctx`
     of that creation, from the store / flags / memos `c.pre` the back end was in when it called the creation function,
-    for the template that created it. -/
+    in the render of template `c.rtid` (the entry's owner is the template that *declares* the section, which under
+    `<%inherit>` need not be the rendered one). -/
 def evCreation (w : World R) (s : Spec R) : Ev R → Prop
   | .enter _ _ K (.hit v) =>
     ∃ e, s.store K = some e ∧ e.val = v ∧
       match e.prov with
       | .manual => True
-      | .creation c => ∃ tm, w.tmpls[e.owner]? = some tm ∧
-          v = sectionValue ⟨w.be, tm, e.owner, c.ctx⟩ c.env c.h c.body c.pre.toSt
+      | .creation c => ∃ tm, w.tmpls[c.rtid]? = some tm ∧
+          v = sectionValue ⟨w.be, tm, c.rtid, c.ctx⟩ c.env c.h c.body c.pre.toSt
   | _ => True
 
 /-- the monitor for a `Prop`-valued check -/
@@ -141,7 +142,14 @@ def hdrs : Items → List Hdr
   | .inv h _ _ body rest => h :: (hdrs body ++ hdrs rest)
 
 /-- the whole call tree of a template, page included -/
-def Tmpl.tree (tm : Tmpl) : Items := .inv tm.page none false tm.body .nil
+def Tmpl.tree (tm : Tmpl) : Items := .inv tm.page none .plain tm.body .nil
+
+/-- the `home` annotations of the world's call trees are truthful: a section said to be declared by template `hm.tid`
+    carries that template's URI, `cache_args` and page arguments -/
+def HomesOK (w : World R) : Prop :=
+  ∀ (t : Nat) (tm : Tmpl), w.tmpls[t]? = some tm → ∀ h, h ∈ hdrs tm.tree → ∀ hm, h.home = some hm →
+    ∃ tm', w.tmpls[hm.tid]? = some tm' ∧ tm'.uri = hm.uri ∧ tm'.cacheArgs = hm.cacheArgs ∧
+      tm'.page.attrs = hm.pageAttrs
 
 /-- `[…].reverse.lookup` : the last binding of `k` -/
 def aGetLast {β : Type} (a : List (Str × β)) (k : Str) : Option β := aGet a.reverse k
